@@ -164,12 +164,21 @@ func lemmaTypedEqualsRawI64(a *I64, idx int32) (int64, bool, []byte, bool) {
 
 //@ func (*Base).InitIndex
 //@   property C16
-//@   opt kinds=post,frame
+//@   opt kinds=post,frame,pre(Of),pre(IndexRank64)
 //@   requires a != nil && len(index) <= 100000000
+//@   requires len(index) > 0 ==> 0 <= index[0] && index[len(index)-1] < 1073741824
 //@   modifies a.Bitmaps, a.Offsets, a.Cnt
 //@   loop 1 invariant 0 <= i && forall(k, 0, i, index[k] < index[k+1]) && a.Cnt == old(a.Cnt) && sameslice(a.Bitmaps, old(a.Bitmaps)) && sameslice(a.Offsets, old(a.Offsets))
-//@   loop 2 invariant fresh(a.Offsets) && fresh(a.Bitmaps) && int(a.Cnt) == len(index)
+//@   loop 1 invariant i <= len(index) - 1 || len(index) == 0
+//@   loop 1 invariant forall(k, 0, i + 1, index[0] <= index[k] && index[k] <= index[i])
+//@   loop 2 invariant fresh(a.Offsets) && fresh(a.Bitmaps) && int(a.Cnt) == len(index) && len(a.Offsets) >= len(a.Bitmaps) && -1 <= rangeidx
 //@   loop 2 invariant forall(k, 0, len(index)-1, index[k] < index[k+1])
+//@   loop 2 invariant forall(k, 0, len(a.Bitmaps), int(a.Offsets[k]) == rank1w(a.Bitmaps, k) || (k <= rangeidx && a.Bitmaps[k] == 0 && a.Offsets[k] == 0))
+//@   loop 2 invariant rangeidx < len(a.Bitmaps) && len(a.Bitmaps) == ite(len(index) == 0, 0, (int(index[len(index)-1]) + 64)/64)
+//@   loop 2 invariant forall(k, 0, rangeidx + 1, a.Bitmaps[k] == 0 ==> a.Offsets[k] == 0)
 //@   ensures exists(k, 0, len(index)-1, index[k] >= index[k+1]) ==> result == ErrIndexNotAscending
 //@   ensures result != nil ==> a.Cnt == old(a.Cnt) && sameslice(a.Bitmaps, old(a.Bitmaps)) && sameslice(a.Offsets, old(a.Offsets))
 //@   ensures result == nil ==> int(a.Cnt) == len(index)
+//@   ensures result == nil ==> len(a.Offsets) >= len(a.Bitmaps)
+//@   ensures result == nil ==> len(a.Bitmaps) == ite(len(index) == 0, 0, (int(index[len(index)-1]) + 64)/64)
+//@   ensures result == nil ==> forall(k, 0, len(a.Bitmaps), ite(a.Bitmaps[k] == 0, a.Offsets[k] == 0, int(a.Offsets[k]) == rank1w(a.Bitmaps, k)) && 0 <= a.Offsets[k])
